@@ -441,17 +441,65 @@ func genC02(c *Ctx) {
 	if c.thorough() {
 		maxN3, n4note = 4, ""
 	}
-	c.Rule = fmt.Sprintf("exhaustive: every filter chain over k<=3 predicates p0..p(k-1) taken in order - every split into consecutive bodies [..][..], every body with the keyword omitted, AND or OR, its operands the predicates themselves or nested flat groups {..}/{AND,..}/{OR,..} of >=2 of them (one-leaf and empty groups and empty bodies are listed separately for k<=1; for k=3 a one-predicate body inside a longer chain carries no keyword) - crossed with every truth pattern: all arrays of n elements, each element realising one of the 2^k truth vectors, n<=4 for k<=2 and n<=%d for k=3%s, every element carrying its index so order and identity are visible; plus every shape x every truth vector on a single object (under a key and at the root). The predicate realising bit i rotates over 8 kinds (boolean field, comparison with a literal, string test, .Not(), comparison and string test whose argument reads `$`, `?`-guarded null test, Equal(true)) and every sixth array is an array of primitive numbers 8*index+bits tested with Modulo; the Go rendering rotates over 13 carriers (maps with string/named/interface keys, structs, pointers to objects, typed slices, Go arrays, float64/int/uint/decimal/named/pointer numbers). coll[p][q] and coll[AND,p,q] are both generated and get the same expected value. random: arrays of 0..12 objects (a random subset of: numbers, strings, booleans, nullable key, nested object, nested arrays of objects and of strings) and arrays of numbers, strings, booleans and mixed primitives, single objects and root-level arrays, with chains of 1..3 bodies of 1..4 random predicates to depth 3: comparisons with literals, with `$.limit`, after arithmetic, AnyOf with literals and with a spread `$.lims`, string tests with literals and `$.name`, boolean fields with Not/Invert/Equal, null tests, Any/Count over nested arrays and nested filters, nested groups with `$` leaves. The expected value always comes from the generator's own evaluation of its predicate tree on the logical document. Numeral strings are a separate out-of-domain class without expectation; a later filter applied to the null an earlier one produced on a single object is out of domain (the statement defines one filter on an object). distinct = distinct (query skeleton, data shape to depth 2, outcome class); non-trivial = outcome class is not the most common one", maxN3, n4note)
+	c.Rule = fmt.Sprintf("exhaustive: every filter chain over k<=3 predicates p0..p(k-1) taken in order - every split into consecutive bodies [..][..], every body with the keyword omitted, AND or OR, its operands the predicates themselves or nested flat groups {..}/{AND,..}/{OR,..} of >=2 of them (one-leaf and empty groups and empty bodies are listed separately for k<=1; for k=3 a one-predicate body inside a longer chain carries no keyword) - crossed with every truth pattern: all arrays of n elements, each element realising one of the 2^k truth vectors, n<=4 for k<=2 and n<=%d for k=3%s, every element carrying its index so order and identity are visible; plus every shape x every truth vector on a single object (under a key and at the root). The predicate realising bit i rotates over 8 kinds (boolean field, comparison with a literal, string test, .Not(), comparison and string test whose argument reads `$`, `?`-guarded null test, Equal(true)) and every sixth array is an array of primitive numbers 8*index+bits tested with Modulo; the Go rendering rotates over 13 carriers (maps with string/named/interface keys, structs, pointers to objects, typed slices, Go arrays, float64/int/uint/decimal/named/pointer numbers). coll[p][q] and coll[AND,p,q] are both generated and get the same expected value. long collections: arrays of 63..2050 elements (to 16385 in the thorough tier; lengths around every power of two and some that are no multiple of anything convenient), objects with an id and two predicate fields and arrays of numbers, kept elements everywhere / at odd positions / only the last ones / only the first ones / after a chain of two filters. random: arrays of 0..12 objects (a random subset of: numbers, strings, booleans, nullable key, nested object, nested arrays of objects and of strings) and arrays of numbers, strings, booleans and mixed primitives, single objects and root-level arrays, with chains of 1..3 bodies of 1..4 random predicates to depth 3: comparisons with literals, with `$.limit`, after arithmetic, AnyOf with literals and with a spread `$.lims`, string tests with literals and `$.name`, boolean fields with Not/Invert/Equal, null tests, Any/Count over nested arrays and nested filters, nested groups with `$` leaves. The expected value always comes from the generator's own evaluation of its predicate tree on the logical document. Numeral strings are a separate out-of-domain class without expectation; a later filter applied to the null an earlier one produced on a single object is out of domain (the statement defines one filter on an object). distinct = distinct (query skeleton, data shape to depth 2, outcome class); non-trivial = outcome class is not the most common one", maxN3, n4note)
 
 	t0 := time.Now()
 	c02Exhaustive(g, maxN3)
 	c.Exhaustive = true
 	c.Extra["exhaustive_cases"], c.Extra["exhaustive_ms"] = c.N, int(time.Since(t0).Milliseconds())
+	c02Long(g)
 	t1 := time.Now()
 	c02Random(g)
 	c.Extra["random_ms"] = int(time.Since(t1).Milliseconds())
 	c.Extra["style_histogram"] = g.stHist
 	c.Extra["random_array_expected_histogram"] = g.keptHist
+}
+
+// c02Long: long collections (an implementation may treat them differently from short ones: chunks, workers, pre-sized buffers);
+// the kept elements sit at the front, at the back, across every power-of-two boundary and everywhere.
+func c02Long(g *c02Run) {
+	lens := []int{63, 64, 65, 127, 129, 255, 256, 257, 511, 512, 513, 514, 515, 1000, 1023, 1024, 1025, 2047, 2050}
+	if g.c.thorough() {
+		lens = append(lens, 4095, 4097, 8191, 8193, 10001, 16385)
+	}
+	p0, put0 := c02BitLeaf(0, 0)
+	n1, put1 := c02BitLeaf(1, 1)
+	for li, n := range lens {
+		mk := func(bit0 func(i int) bool) []*Doc {
+			arr := make([]*Doc, n)
+			for i := range arr {
+				o := dObj("id", dNum(fmt.Sprint(i)))
+				put0(o, bit0(i), i)
+				put1(o, i%3 != 0, i)
+				arr[i] = o
+			}
+			return arr
+		}
+		idAtLeast := func(k int) c02Pred {
+			return c02Pred{q: fmt.Sprintf("@.id.GreaterOrEqual(%d)", k), f: func(e, _ *Doc) bool { return e.get("id").N.IntPart() >= int64(k) }}
+		}
+		idBelow := func(k int) c02Pred {
+			return c02Pred{q: fmt.Sprintf("@.id.Less(%d)", k), f: func(e, _ *Doc) bool { return e.get("id").N.IntPart() < int64(k) }}
+		}
+		cls := fmt.Sprintf("long-list/len%d", n)
+		g.emitArr(mk(func(i int) bool { return true }), nil, []c02Pred{c02Body("", p0)}, cls+"/all", true)
+		g.emitArr(mk(func(i int) bool { return i%2 == 1 }), nil, []c02Pred{c02Body("", p0)}, cls+"/odd", true)
+		g.emitArr(mk(func(i int) bool { return i >= n-3 }), nil, []c02Pred{c02Body("", p0)}, cls+"/last3", true)
+		g.emitArr(mk(func(i int) bool { return i == n-1 }), nil, []c02Pred{c02Body("", p0)}, cls+"/last", true)
+		g.emitArr(mk(func(i int) bool { return i%5 != 0 }), nil, []c02Pred{c02Body("AND", p0, n1)}, cls+"/and", true)
+		g.emitArr(mk(func(i int) bool { return i%7 == 0 }), nil, []c02Pred{c02Body("OR", p0, idAtLeast(n-2))}, cls+"/or-tail", true)
+		g.emitArr(mk(func(i int) bool { return i%2 == 0 }), nil, []c02Pred{c02Body("", p0), c02Body("", idAtLeast(n/2))}, cls+"/chain", true)
+		g.emitArr(mk(func(i int) bool { return false }), nil, []c02Pred{c02Body("", idBelow(2))}, cls+"/first2", true)
+		if li%3 == 0 {
+			// numbers
+			arr := make([]*Doc, n)
+			for i := range arr {
+				arr[i] = dNum(fmt.Sprint(8*i + i%8))
+			}
+			g.emitRootArr(arr, []c02Pred{c02Body("", c02PrimLeaf(0))}, cls+"/numbers-root")
+			g.emitArr(arr, nil, []c02Pred{c02Body("", c02PrimLeaf(1))}, cls+"/numbers", true)
+		}
+	}
 }
 
 func c02Exhaustive(g *c02Run, maxN3 int) {
